@@ -10,5 +10,6 @@ T=/verif/.work/setup.$$
 mkdir -p "$T"
 ( cd /repo && go build -race -tags verif -o "$T/" ./server ./agent ./utils/tcpbridge/tcp-bridge-frontend ./utils/tcpbridge/tcp-bridge-backend ) || echo "warning: repo binaries did not build"
 go build -race -tags verif -o "$T/vworker" ./cmd/vworker || echo "warning: vworker did not build"
+( cd /repo/app && go build -race -tags verif -o "$T/appbin" . ) || echo "warning: app did not build"
 rm -rf "$T"
 echo setup done
